@@ -3,6 +3,7 @@ package props
 import (
 	"fmt"
 	"go/build/constraint"
+	"go/types"
 	"os"
 	"path/filepath"
 	"strings"
@@ -253,8 +254,40 @@ func c20Go(c *Ctx) {
 	{
 		in := bitdom.New(c.P.SSA, W)
 		args := []bitdom.Val{in.SymBV("aL", W, W, false), in.SymBV("aH", W, W, false), in.SymBV("bL", W, W, false), in.SymBV("bH", W, W, false)}
-		ex, err := in.Call(sbox, args)
+		// the four words in parameter order, whether passed one by one or grouped into (low, high) structs
+		var callArgs []bitdom.Val
+		next := 0
+		var build func(t types.Type) bitdom.Val
+		build = func(t types.Type) bitdom.Val {
+			if st, isS := t.Underlying().(*types.Struct); isS {
+				sv := &bitdom.Struct{}
+				for i := 0; i < st.NumFields(); i++ {
+					sv.Fields = append(sv.Fields, build(st.Field(i).Type()))
+				}
+				return sv
+			}
+			if next < len(args) {
+				next++
+				return args[next-1]
+			}
+			next++
+			return bitdom.Top{Why: "more than four words"}
+		}
+		for _, p := range sbox.Params {
+			callArgs = append(callArgs, build(p.Type()))
+		}
+		if next != 4 {
+			callArgs = args
+		}
+		ex, err := in.Call(sbox, callArgs)
 		ok := err == nil && !ex.Panic && len(ex.Results) == 2
+		if ok {
+			for _, rv := range ex.Results {
+				if _, isBV := rv.(*bitdom.BV); !isBV {
+					ok = false
+				}
+			}
+		}
 		if ok {
 			for k := 0; k < W; k++ {
 				wl, wh := sboxExpected(args[0].(*bitdom.BV).Bits[k], args[1].(*bitdom.BV).Bits[k], args[2].(*bitdom.BV).Bits[k], args[3].(*bitdom.BV).Bits[k])
@@ -338,17 +371,26 @@ func c20Go(c *Ctx) {
 		}
 	}
 	if len(ptrPhis) == 4 {
-		tgt := map[string]*bitdom.Array{}
+		// each buffer variable is identified by the parameter it starts as (0 lto, 1 hto, 2 lfrom, 3 hfrom), not by its name
+		tgt := map[int]*bitdom.Array{}
 		for _, phi := range ptrPhis {
-			if cap := in.Captured[phi]; len(cap) == 1 {
+			role := -1
+			for _, e := range phi.Edges {
+				for i, prm := range fn.Params {
+					if e == ssa.Value(prm) {
+						role = i
+					}
+				}
+			}
+			if cap := in.Captured[phi]; len(cap) == 1 && role >= 0 {
 				if p, ok := cap[0].(*bitdom.Ptr); ok && p.Cell != nil {
 					if a, ok := p.Cell.V.(*bitdom.Array); ok {
-						tgt[phi.Comment] = a
+						tgt[role] = a
 					}
 				}
 			}
 		}
-		okSwap = tgt["lfrom"] == arrs[0] && tgt["lto"] == arrs[2] && tgt["hfrom"] == arrs[1] && tgt["hto"] == arrs[3]
+		okSwap = tgt[2] == arrs[0] && tgt[0] == arrs[2] && tgt[3] == arrs[1] && tgt[1] == arrs[3]
 	}
 	r.Check(okSwap, "C20.rounds.go-swap", c.P.Pos(fn.Pos()), "after a round the from and to pairs are exchanged (l with l, h with h)")
 	b := ana.NewBuilder(c.P, fn)
@@ -457,9 +499,16 @@ func c20Wiring(c *Ctx, purego bool) {
 					}
 				}
 				ok = ok && cl && ch
+				if !ok {
+					// the other way round: the state is copied into two fresh arrays that serve as the from pair, and the
+					// permutation writes straight into l, h (the result of an odd number of rounds is in the to pair; a
+					// round only reads the from pair and writes every word of the to pair — C20.schedule.*)
+					_, okB := ana.Match("call<*>(faddr<#0>(p0), faddr<#1>(p0), obj(alloc<[729]uint>, store(self, load(faddr<#0>(p0)))), obj(alloc<[729]uint>, store(self, load(faddr<#1>(p0)))))", t)
+					ok = okB && ci.Common().Args[2] != ci.Common().Args[3]
+				}
 			}
 		}
-		r.Check(ok, "C20.rounds.call-site", c.P.Pos(f.Pos()), "Curl.transform passes two fresh arrays as the to pair and its own l, h as the from pair (four distinct objects) and copies the to pair back into l, h")
+		r.Check(ok, "C20.rounds.call-site", c.P.Pos(f.Pos()), "Curl.transform passes two fresh arrays as the to pair and its own l, h as the from pair (four distinct objects) and copies the to pair back into l, h — or copies l, h into two fresh arrays used as the from pair and transforms straight into l, h")
 	}
 	if purego || c.P.Cfg.GOARCH != "" && c.P.Cfg.GOARCH != "amd64" {
 		f := cp
